@@ -16,6 +16,10 @@ func (g *G) Leaf() *DNode {
 	case 1, 2:
 		return Bool(g.chance("b", 50))
 	case 3, 4, 5, 6:
+		if g.chance("extreme", 4) {
+			// numbers only json.Number can hold, and integers beyond 2^53
+			return NumText([]string{"1e999", "-1e999", "1e-999", "123456789012345678901234567890", "9007199254740993"}[g.intn("extremev", 5)])
+		}
 		return Num(numPool[g.intn("numv", len(numPool))])
 	case 7, 8, 9:
 		return Str(strPool[g.intn("strv", len(strPool))])
